@@ -138,7 +138,16 @@ static void child(const std::vector<Cfg>& seq)
 }
 
 static void crash_h(int sig) { if (SH) fail("crash", "signal %d inside the simulated camera", sig); _exit(3); }
+static Shared run_forked_limit(const std::vector<Cfg>& seq, bool verbose, unsigned limit_s);
+// a sequence that gets no verdict within 60 s of wall-clock time (the cameras sleep real exposures; the machine may be busy) is run
+// again alone with ten times the limit before it is called a hang
 static Shared run_forked(const std::vector<Cfg>& seq, bool verbose)
+{
+    Shared o = run_forked_limit(seq, verbose, 60);
+    if (!strcmp(o.verdict, "viol") && !strcmp(o.clause, "hang")) o = run_forked_limit(seq, verbose, 600);
+    return o;
+}
+static Shared run_forked_limit(const std::vector<Cfg>& seq, bool verbose, unsigned limit_s)
 {
     memset(SH, 0, sizeof *SH); strcpy(SH->verdict, "run");
     fflush(stdout);
@@ -147,14 +156,14 @@ static Shared run_forked(const std::vector<Cfg>& seq, bool verbose)
         struct sigaction sa; memset(&sa, 0, sizeof sa); sa.sa_handler = crash_h;
         sigaction(SIGSEGV, &sa, nullptr); sigaction(SIGBUS, &sa, nullptr); sigaction(SIGABRT, &sa, nullptr); sigaction(SIGFPE, &sa, nullptr); sigaction(SIGILL, &sa, nullptr);
         if (!verbose) { int fd = open("/dev/null", 1); dup2(fd, 2); }
-        alarm(60);
+        alarm(limit_s);
         child(seq);
         if (!strcmp(SH->verdict, "run")) strcpy(SH->verdict, "ok");
         _exit(0);
     }
     int st = 0; waitpid(p, &st, 0);
     Shared o = *SH;
-    if (!strcmp(o.verdict, "run")) { strcpy(o.verdict, "viol"); if (WIFSIGNALED(st) && WTERMSIG(st) == SIGALRM) { strcpy(o.clause, "hang"); strcpy(o.detail, "no verdict within 60 s"); } else { strcpy(o.clause, "crash"); snprintf(o.detail, sizeof o.detail, "child ended with wait status 0x%x", st); } }
+    if (!strcmp(o.verdict, "run")) { strcpy(o.verdict, "viol"); if (WIFSIGNALED(st) && WTERMSIG(st) == SIGALRM) { strcpy(o.clause, "hang"); snprintf(o.detail, sizeof o.detail, "no verdict within %u s", limit_s); } else { strcpy(o.clause, "crash"); snprintf(o.detail, sizeof o.detail, "child ended with wait status 0x%x", st); } }
     return o;
 }
 
